@@ -212,8 +212,14 @@ def _locations(truth: Truth, d) -> list[str]:
     for (pq, name), (target, alias) in truth.reexports.items():
         if d["q"] == target:
             out.append(f"{pq}.{name}")
+            if alias:
+                # an aliased re-export may also surface under its own name in the re-exporting package (the alias is an
+                # annotation of the layout, C10; here only presence and multiplicity are judged)
+                out.append(f"{pq}.{target.split('.')[-1]}")
         elif d["q"].startswith(target + "."):
             out.append(f"{pq}.{name}" + d["q"][len(target):])
+            if alias:
+                out.append(f"{pq}.{target.split('.')[-1]}" + d["q"][len(target):])
     # a module re-exported on a shorter path moves its whole stub: <package>.<module or alias>.X
     mq = d["module"]["qname"]
     rest = d["q"][len(mq):]
